@@ -75,19 +75,20 @@ PROPS = {
     "C20": {
         "units": ["files"],
         "level": "other",
-        "property_obligations": ["Files::left", "Files::right", "Files::program", "Files::user_guide", "Files::proof_outline", "lemma_swap"],
+        "property_obligations": ["Files::left", "Files::right", "Files::program", "Files::user_guide", "Files::proof_outline", "Files::specification", "sort_one", "lemma_swap"],
         "carriers": [],
-        "explanation": "Verus proves, for bucket vectors of any length, that the real accessors left/right/program/user_guide/proof_outline return "
+        "explanation": "Verus proves, for bucket vectors of any length, that the real accessors left/right/program/user_guide/proof_outline/specification return "
                        "exactly the element of the extension bucket the property names (first .lp = left/specification-when-no-.spec, second .lp = right/program, "
-                       "first .spec/.ug/.po), and the swap lemma. NOT decided by contracts: Files::sort (bucket choice by extension, argument order, "
-                       "directory order — WalkDir and the filesystem are outside both verifiers) and Files::specification (Option::or_else + constructor "
-                       "as function value, outside Verus' subset).",
+                       "first .spec/.ug/.po), and the swap lemma; and that the classification statement of Files::sort (extracted as a fragment: the `match path.extension()...{..}.push(path)` executed for "
+                       "every directory entry that is a file) appends the file to the bucket determined by its extension text alone — exactly lp, spec, ug, po (case-sensitive), anything else or no/non-UTF-8 "
+                       "extension to `other` — and changes no other bucket, so the order within a bucket is the order in which files are visited. NOT decided by contracts: the traversal of Files::sort "
+                       "(argument order, directory order — WalkDir and the filesystem are outside both verifiers).",
         "assumptions": [
-            "Files::sort is not under contract (walkdir crate, filesystem): argument-order and extension bucketing are NOT decided by this check",
-            "Files::specification is not under contract (Option::map(Either::Right).or_else(..) is outside Verus' subset)",
-            "std::path::PathBuf is an opaque external type",
+            "the traversal in Files::sort (paths.into_iter().map(WalkDir::new).flat_map(WalkDir::sort_by_file_name), entry?, is_file) is not under contract: argument order and directory order are NOT decided by this check",
+            "std::path::PathBuf, Path, OsStr are opaque external types; Path::extension / OsStr::to_str / PathBuf::deref are uninterpreted (the extension text is whatever they return)",
+            "Option::or_else per std docs; Either is the two-variant enum of the either crate",
         ],
-        "not_covered": ["Files::sort", "Files::specification"],
+        "not_covered": ["Files::sort traversal (WalkDir)"],
     },
     "C01": {
         "units": ["tau"],
